@@ -150,7 +150,8 @@ func (a *stdTransport) RoundTrip(req *http.Request) (*http.Response, error) {
 	requiredScope := RequestInfoFromContext(ctx).RequiredScope
 	wantScope := ScopeFromContext(ctx)
 
-	if err := r.setAuthorization(ctx, req, requiredScope, wantScope); err != nil {
+	tokenAcquired, err := r.setAuthorization(ctx, req, requiredScope, wantScope)
+	if err != nil {
 		return nil, err
 	}
 	resp, err := r.transport.RoundTrip(req)
@@ -164,19 +165,28 @@ func (a *stdTransport) RoundTrip(req *http.Request) (*http.Response, error) {
 	if resp.StatusCode != http.StatusUnauthorized {
 		return resp, nil
 	}
-	challenge := challengeFromResponse(resp)
-	if challenge == nil {
+	// noMoreAuth returns the response when there's nothing more we can do.
+	noMoreAuth := func() (*http.Response, error) {
+		if tokenAcquired {
+			// The token we've just acquired for this request has been refused.
+			return forbiddenResponse(resp)
+		}
 		return resp, nil
 	}
-	authAdded, tokenAcquired, err := r.setAuthorizationFromChallenge(ctx, req, challenge, requiredScope, wantScope)
+	challenge := challengeFromResponse(resp)
+	if challenge == nil {
+		return noMoreAuth()
+	}
+	authAdded, tokenAcquiredFromChallenge, err := r.setAuthorizationFromChallenge(ctx, req, challenge, requiredScope, wantScope)
 	if err != nil {
 		resp.Body.Close()
 		return nil, err
 	}
 	if !authAdded {
 		// Couldn't acquire any more authorization than we had initially.
-		return resp, nil
+		return noMoreAuth()
 	}
+	tokenAcquired = tokenAcquiredFromChallenge
 	resp.Body.Close()
 	// rewind request body if needed and possible.
 	if req.GetBody != nil {
@@ -192,6 +202,13 @@ func (a *stdTransport) RoundTrip(req *http.Request) (*http.Response, error) {
 	if resp.StatusCode != http.StatusUnauthorized || !tokenAcquired {
 		return resp, nil
 	}
+	return forbiddenResponse(resp)
+}
+
+// forbiddenResponse changes resp, an Unauthorized (401) response
+// to a request that held a token that the server gave us just now,
+// into a Forbidden (403) response.
+func forbiddenResponse(resp *http.Response) (*http.Response, error) {
 	// The server has responded with Unauthorized (401) even though we've just
 	// provided a token that it gave us. Treat it as Forbidden (403) instead.
 	// TODO include the original body/error as part of the message or message detail?
@@ -215,7 +232,7 @@ func (a *stdTransport) RoundTrip(req *http.Request) (*http.Response, error) {
 
 // setAuthorization sets up authorization on the given request using any
 // auth information currently available.
-func (r *registry) setAuthorization(ctx context.Context, req *http.Request, requiredScope, wantScope Scope) error {
+func (r *registry) setAuthorization(ctx context.Context, req *http.Request, requiredScope, wantScope Scope) (tokenAcquired bool, _ error) {
 	r.mu.Lock()
 	defer r.mu.Unlock()
 	// Remove tokens that have expired or will expire soon so that
@@ -226,14 +243,14 @@ func (r *registry) setAuthorization(ctx context.Context, req *http.Request, requ
 	if accessToken := r.accessTokenForScope(requiredScope); accessToken != nil {
 		// We have a potentially valid access token. Use it.
 		req.Header.Set("Authorization", "Bearer "+accessToken.token)
-		return nil
+		return false, nil
 	}
 	if r.wwwAuthenticate == nil {
 		// We haven't seen a 401 response yet. Avoid putting any
 		// basic authorization in the request, because that can mean that
 		// the server sends a 401 response without a Www-Authenticate
 		// header.
-		return nil
+		return false, nil
 	}
 	if r.refreshToken != "" && r.wwwAuthenticate.scheme == "bearer" {
 		// We've got a refresh token that we can use to try to
@@ -249,16 +266,16 @@ func (r *registry) setAuthorization(ctx context.Context, req *http.Request, requ
 			// Avoid using %w to wrap the error because we don't want the
 			// caller of RoundTrip (usually ociclient) to assume that the
 			// error applies to the target server rather than the token server.
-			return fmt.Errorf("cannot acquire access token: %v", err)
+			return false, fmt.Errorf("cannot acquire access token: %v", err)
 		}
 		req.Header.Set("Authorization", "Bearer "+accessToken)
-		return nil
+		return true, nil
 	}
 	if r.wwwAuthenticate.scheme != "bearer" && r.basic != nil {
 		req.SetBasicAuth(r.basic.username, r.basic.password)
-		return nil
+		return false, nil
 	}
-	return nil
+	return false, nil
 }
 
 func (r *registry) setAuthorizationFromChallenge(ctx context.Context, req *http.Request, challenge *authHeader, requiredScope, wantScope Scope) (authAdded, tokenAcquired bool, _ error) {
